@@ -11,20 +11,26 @@ import (
 
 // UnaryCrashInterceptor 用于一元请求的异常捕获拦截器。
 func UnaryCrashInterceptor(ctx context.Context, req interface{}, _ *grpc.UnaryServerInfo, handler grpc.UnaryHandler) (resp interface{}, err error) {
-	defer handleCrash(func(r interface{}) {
+	finished := false
+	defer handleCrash(&finished, func(r interface{}) {
 		err = toPanicError(r)
 	})
 
-	return handler(ctx, req)
+	resp, err = handler(ctx, req)
+	finished = true
+	return
 }
 
 // StreamCrashInterceptor 捕获 stream 请求和 recover() 中的 panics。
 func StreamCrashInterceptor(svr interface{}, stream grpc.ServerStream, _ *grpc.StreamServerInfo, handler grpc.StreamHandler) (err error) {
-	defer handleCrash(func(r interface{}) {
+	finished := false
+	defer handleCrash(&finished, func(r interface{}) {
 		err = toPanicError(r)
 	})
 
-	return handler(svr, stream)
+	err = handler(svr, stream)
+	finished = true
+	return
 }
 
 func toPanicError(r interface{}) error {
@@ -32,8 +38,10 @@ func toPanicError(r interface{}) error {
 	return status.Errorf(codes.Internal, "panic: %v", r)
 }
 
-func handleCrash(handler func(interface{})) {
-	if r := recover(); r != nil {
+// handleCrash 在被保护的调用 panic 时执行 handler。
+// panic(nil) 时 recover() 返回 nil，所以还要看调用是否正常结束。
+func handleCrash(finished *bool, handler func(interface{})) {
+	if r := recover(); r != nil || !*finished {
 		handler(r)
 	}
 }
